@@ -12,48 +12,64 @@ namespace BM.C04
 open BM
 
 theorem inv_empty : Inv {} := by
-  sorry
+  exact wf_empty.inv
 
 /-- One-step preservation, for every operation and every argument (out-of-range ids are no-ops). -/
 theorem inv_step (h : Heap) (op : Op) (hi : Inv h) : Inv (step h op) := by
-  sorry
+  exact ((WF.of_inv hi).of_step op).inv
 
 /-- Every reachable state satisfies the invariant. -/
 theorem inv_run (ops : List Op) : Inv (run {} ops) := by
-  sorry
+  exact (wf_empty.of_run ops).inv
 
 theorem inv_run_from (h : Heap) (ops : List Op) (hi : Inv h) : Inv (run h ops) := by
-  sorry
+  exact ((WF.of_inv hi).of_run ops).inv
 
 /-- Objects are never removed and never change class. -/
 theorem step_objs_mono (h : Heap) (op : Op) (j : Nat) (o : Obj) (hj : h.objs[j]? = some o) :
     ∃ o', (step h op).objs[j]? = some o' ∧ o'.cls = o.cls := by
-  sorry
+  exact (Frame.of_step h op).objsCls j o hj
 
 /-- Mutation is local: an in-place mutation of object `t` changes no other object … -/
 theorem mutate_frame_objs (h : Heap) (hi : Inv h) (t : Nat) (g : Bits → Bits) (j : Nat) (hj : j ≠ t) :
     value (step h (.mutate t g)) j = value h j := by
-  sorry
+  by_cases hl : j < h.objs.length
+  · exact step_value_frame (WF.of_inv hi) _ j hl (fun e => hj (Option.some.inj e).symm)
+  · unfold value
+    rw [step_mutate_objs, List.getElem?_eq_none (Nat.le_of_not_lt hl)]
+    rfl
 
 /-- … no external buffer … -/
 theorem mutate_frame_exts (h : Heap) (hi : Inv h) (t : Nat) (g : Bits → Bits) (k : Nat) :
     extValue (step h (.mutate t g)) k = extValue h k := by
-  sorry
+  have w := WF.of_inv hi
+  have f := Frame.of_step h (.mutate t g)
+  unfold extValue
+  rw [step_mutate_exts]
+  cases hk : h.exts[k]? with
+  | none => rfl
+  | some s =>
+    simp only [Option.map_some]
+    rw [f.bits s (w.extR s (List.mem_of_getElem? hk)) (w.writes_mutate_ne_ext t g s (List.mem_of_getElem? hk))]
 
 /-- … and no cache entry. -/
 theorem mutate_frame_cache (h : Heap) (hi : Inv h) (t : Nat) (g : Bits → Bits) (key : String) :
     cacheValue (step h (.mutate t g)) key = cacheValue h key := by
-  sorry
+  exact cacheValue_of_cache_eq (WF.of_inv hi) _ (step_mutate_cache h t g) key
 
 /-- Mutating an external buffer (the bytearray/bitarray an object was built from, or a bitarray obtained with
     `tobitarray`) changes no object and no cache entry. -/
 theorem mutateExt_frame_objs (h : Heap) (hi : Inv h) (k : Nat) (g : Bits → Bits) (j : Nat) :
     value (step h (.mutateExt k g)) j = value h j := by
-  sorry
+  by_cases hl : j < h.objs.length
+  · exact step_value_frame (WF.of_inv hi) _ j hl (by simp [tgt])
+  · unfold value
+    rw [step_mutateExt_objs, List.getElem?_eq_none (Nat.le_of_not_lt hl)]
+    rfl
 
 theorem mutateExt_frame_cache (h : Heap) (hi : Inv h) (k : Nat) (g : Bits → Bits) (key : String) :
     cacheValue (step h (.mutateExt k g)) key = cacheValue h key := by
-  sorry
+  exact cacheValue_of_cache_eq (WF.of_inv hi) _ (step_mutateExt_cache h k g) key
 
 /-- No operation whatsoever changes the value of an existing object, except a mutation / re-binding /
     `bits` assignment aimed at that very object. -/
@@ -65,24 +81,44 @@ def targets : Op → Option Nat
 
 theorem step_frame (h : Heap) (hi : Inv h) (op : Op) (j : Nat) (hj : j < h.objs.length)
     (ht : targets op ≠ some j) : value (step h op) j = value h j := by
-  sorry
+  have he : targets op = tgt op := by cases op <;> rfl
+  exact step_value_frame (WF.of_inv hi) op j hj (by rwa [← he])
 
 /-- The value of a Bits or ConstBitStream object never changes, whatever is done later. -/
 theorem immutable_constant (h : Heap) (hi : Inv h) (ops : List Op) (j : Nat) (o : Obj)
     (hj : h.objs[j]? = some o) (hm : o.cls.isMutable = false) :
     value (run h ops) j = value h j := by
-  sorry
+  induction ops generalizing h o with
+  | nil => rfl
+  | cons op ops ih =>
+    have w := WF.of_inv hi
+    obtain ⟨o', ho', hc'⟩ := (Frame.of_step h op).objsCls j o hj
+    have h1 : value (step h op) j = value h j := by
+      by_cases ht : tgt op = some j
+      · rw [step_eq_self_of_immutable_target h op j o hj hm ht]
+      · exact step_value_frame w op j (List.getElem?_eq_some_iff.1 hj).1 ht
+    show value (run (step h op) ops) j = value h j
+    rw [ih (step h op) (w.of_step op).inv o' ho' (by rw [hc']; exact hm), h1]
 
 /-- A cached literal always parses to the bits it had when first parsed. -/
 theorem cache_constant (h : Heap) (hi : Inv h) (ops : List Op) (key : String) (b : Bits)
     (hc : cacheValue h key = some b) : cacheValue (run h ops) key = some b := by
-  sorry
+  induction ops generalizing h with
+  | nil => exact hc
+  | cons op ops ih =>
+    have w := WF.of_inv hi
+    exact ih (step h op) (w.of_step op).inv (step_cacheValue w op key b hc)
 
 /-- Immutable classes expose no operation that alters their own content. -/
 theorem immutable_no_self_mutation (h : Heap) (t : Nat) (o : Obj) (g : Bits → Bits)
     (ho : h.objs[t]? = some o) (hm : o.cls.isMutable = false) :
     step h (.mutate t g) = h ∧ step h (.rebind t g) = h ∧ ∀ s, step h (.assignBits t s) = h := by
-  sorry
+  refine ⟨?_, ?_, ?_⟩
+  · simp [step, ho, hm]
+  · simp [step, ho, hm]
+  · intro s
+    simp only [step, ho]
+    cases h.objs[s]? <;> simp [hm]
 
 /-! ### non-vacuity: a reachable state with sharing among immutables, a cache entry and an external buffer -/
 example :
